@@ -63,7 +63,18 @@ func openFs(kind int, fs, metaFs afero.Fs) gofakes3.Backend {
 
 // c15History performs a free history of puts, overwrites and deletes through
 // the Backend API and returns the buckets used.
-func c15History(b gofakes3.Backend, kind int, steps int) []string {
+// c15Keys: "d/y" and "d_y" differ only in a character that the fs backends
+// replace when they name a key's metadata record.
+var c15Keys = []string{"x", "d/y", "d_y"}
+
+// c15Acked is what the last acknowledged write left under a key.
+type c15Acked struct {
+	present    bool
+	body, meta string
+}
+
+func c15History(b gofakes3.Backend, kind int, steps int) ([]string, map[string]c15Acked) {
+	acked := map[string]c15Acked{}
 	buckets := []string{"aaa"}
 	if kind == kindFsSingle {
 		buckets = []string{"bkt"}
@@ -72,7 +83,7 @@ func c15History(b gofakes3.Backend, kind int, steps int) []string {
 			vsym.Fail("C15/create-bucket")
 		}
 	}
-	keys := []string{"x", "d/y"}
+	keys := c15Keys
 	for i := 0; i < steps; i++ {
 		k := keys[vsym.Choice("key", len(keys))]
 		switch vsym.Choice("op", 3) {
@@ -82,13 +93,15 @@ func c15History(b gofakes3.Backend, kind int, steps int) []string {
 			if _, err := b.PutObject(buckets[0], k, meta, bytes.NewReader(body), int64(len(body))); err != nil {
 				vsym.Fail("C15/put-failed")
 			}
+			acked[k] = c15Acked{true, string(body), meta["X-Amz-Meta-A"]}
 		default:
 			if _, err := b.DeleteObject(buckets[0], k); err != nil {
 				vsym.Fail("C15/delete-failed")
 			}
+			acked[k] = c15Acked{}
 		}
 	}
-	return buckets
+	return buckets, acked
 }
 
 // VH_C15a: clean reopen of the fs backends on the same storage.
@@ -96,12 +109,22 @@ func VH_C15a() {
 	kind := vsym.Param("backend", kindFsMulti)
 	fs, metaFs := afero.NewMemMapFs(), afero.NewMemMapFs()
 	b1 := openFs(kind, fs, metaFs)
-	buckets := c15History(b1, kind, vsym.Param("steps", 2))
-	keys := []string{"x", "d/y"}
+	buckets, acked := c15History(b1, kind, vsym.Param("steps", 2))
+	keys := c15Keys
 	before := snapStore(b1, buckets, keys)
 	b2 := openFs(kind, fs, metaFs) // a new server on the same storage
 	after := snapStore(b2, buckets, keys)
 	sameSnapStore("C15a", before, after)
+	// every key holds what its last acknowledged write left there
+	for _, k := range keys {
+		want := acked[k]
+		got := readObj(b2, buckets[0], k)
+		vsym.Assert(got.ok == want.present, "C15a/acknowledged-presence-after-reopen")
+		if want.present && got.ok {
+			vsym.Assert(got.body == want.body, "C15a/acknowledged-bytes-after-reopen")
+			vsym.Assert(got.meta == want.meta, "C15a/acknowledged-metadata-after-reopen")
+		}
+	}
 	// and it keeps working
 	if _, err := b2.PutObject(buckets[0], "x", map[string]string{}, bytes.NewReader([]byte("z")), 1); err != nil {
 		vsym.Fail("C15a/put-after-reopen")
